@@ -44,6 +44,7 @@ inductive Form where
   | eq | lt | pcmp | ordmax | letbind | hypot | atan2
   | newf | getf | from_ | sqrt | cbrt | neg
   | satadd | satsub | sum
+  | fmtargs | fmtwith | floorf
 deriving DecidableEq, Repr, Inhabited
 
 def Form.ofString? : String → Option Form
@@ -54,6 +55,7 @@ def Form.ofString? : String → Option Form
   | "newf" => some .newf | "getf" => some .getf | "from" => some .from_
   | "sqrt" => some .sqrt | "cbrt" => some .cbrt | "neg" => some .neg
   | "satadd" => some .satadd | "satsub" => some .satsub | "sum" => some .sum
+  | "fmtargs" => some .fmtargs | "fmtwith" => some .fmtwith | "floorf" => some .floorf
   | _ => none
 
 /-- marker indices in `Gen.markerNames` order -/
@@ -90,7 +92,9 @@ def accepts (e : TyEnv) (f : Form) (A B : QTy) (sameModule : Bool) : Bool :=
   | .rem => A = B && e.has A.kind mRem
   | .rema => A = B && e.has A.kind mRemAssign
   | .eq | .lt | .pcmp | .ordmax | .letbind | .hypot | .atan2 => A = B
-  | .newf | .getf => sameModule
+  -- every unit-taking method (`new`, `get`, the rounding methods, both formatting entry points) is
+  -- bounded by the quantity's own `Unit` marker trait
+  | .newf | .getf | .fmtargs | .fmtwith | .floorf => sameModule
   | .from_ => A = B || (A.dim = B.dim && e.implFrom.contains (A.kind, B.kind))
   | .sqrt => (outRoot 2 A).isSome && e.has A.kind mDiv
   | .cbrt => (outRoot 3 A).isSome && e.has A.kind mDiv
